@@ -315,7 +315,14 @@ func runCase(c Case, ctx *hx.Ctx) *hx.Failure {
 			}
 		}(i)
 	}
-	wg.Wait()
+	if done, hang, detail := hx.WaitBounded(&wg, 30*time.Second, "c05.runCase", nil); !done {
+		if hang {
+			return hx.Failf("C05/query-never-returns", "a burst of concurrent queries through the cache has not finished after 30 s; stuck in the cache:\n%s", detail)
+		}
+		ctx.Class("inconclusive:burst-slow")
+		wg.Wait()
+		return nil
+	}
 
 	M, C, S := time.Unix(msgExp, 0), time.Unix(cacheExp, 0), time.Unix(stored, 0)
 	nFresh, nLazy, nMiss := 0, 0, 0
